@@ -156,9 +156,11 @@ Roots(w) == { LEq(w, 3), LEq(w, 11), RootMax(w), Dec(RootMax(w)), P2(w, 2 * w), 
 SquareVals(w) == UNION { { Sq(r), Dec(Sq(r)), Inc(Sq(r)) } : r \in Roots(w) }
 PowerVals(w) ==       \* powers of 3, 7 and 10 and their neighbours (exactness of log)
     UNION { LET p == Pow(LEq(w, b), e, w) IN IF p.ovf THEN {} ELSE { p.v, Dec(p.v), Inc(p.v) }
-            : b \in {3, 7, 10}, e \in {2, 5, 2 * w, 5 * w} }
-PairVals(w) == { LEq(w, 0), LEq(w, 1), LEq(w, 2), LEq(w, 7), MaxV(w), Dec(MaxV(w)), Half(w), Dec(Half(w)), Inc(Half(w)),
-                 P2(w, 8 * w - 1) }
+            : b \in {3, 7, 10}, e \in (IF w >= 16 THEN {2, 5 * w} ELSE {2, 5, 2 * w, 5 * w}) }
+PairVals(w) == IF w >= 16          \* (the 16- and 32-byte cases cost TLC about half a second each)
+               THEN { LEq(w, 0), LEq(w, 1), LEq(w, 7), MaxV(w), Dec(MaxV(w)), Half(w), Dec(Half(w)) }
+               ELSE { LEq(w, 0), LEq(w, 1), LEq(w, 2), LEq(w, 7), MaxV(w), Dec(MaxV(w)), Half(w), Dec(Half(w)), Inc(Half(w)),
+                      P2(w, 8 * w - 1) }
 Exponents == {0, 1, 2, 3, 7, 8, 15, 16, 31, 32, 63, 64, 127, 128, 255, 256}
 ShiftAmts == {0, 1, 7, 63, 64, 65, 127, 128, 129, 255, 256}
 LogBases(w) == { LEq(w, 0), LEq(w, 1), LEq(w, 2), LEq(w, 3), LEq(w, 7), LEq(w, 10), Half(w), MaxV(w) }
@@ -208,17 +210,16 @@ NumReplay == [c \in {ncase} |-> [ty |-> c.ty, op |-> c.op, mode |-> c.mode, a |-
 PrintNum == PrintT(<<"REPLAY", ToJson(NumReplay)>>)
 
 \* self-consistency of the numeric model on the case at hand
-\* (on the types of at most 8 bytes: the operators are generic in the width, and the 16/32-byte cases cost seconds each)
 NumLaws ==
     LET c == ncase w == NW(c.ty) a == FromBE(c.a) x == NumExpect(c) IN
-    (w <= 8) =>
     /\ x.out \in {"return", "revert"}
     /\ (c.b # <<>>) => MulFast(a, FromBE(c.b)) = MulFull(a, FromBE(c.b))
     /\ (c.op = "sub" /\ x.out = "return" /\ c.mode = "D") =>
           Add(FromBE(x.items[1].b), FromBE(c.b)).v = a                       \* (a - b) + b = a
     /\ (c.op \in {"div", "mod"} /\ ~IsZero(FromBE(c.b))) =>
-          LET d == DivMod(a, FromBE(c.b)) p == MulW(d.q, FromBE(c.b), w) IN
-             ~p.ovf /\ Add(p.v, d.r).v = a /\ Lt(d.r, FromBE(c.b))              \* a = q*b + r, r < b
+          LET d == DivModT(a, FromBE(c.b)) p == MulW(d.q, FromBE(c.b), w) IN
+             /\ ~p.ovf /\ Add(p.v, d.r).v = a /\ Lt(d.r, FromBE(c.b))           \* a = q*b + r, r < b
+             /\ (w <= 2) => (DivMod(a, FromBE(c.b)).q = d.q /\ DivMod(a, FromBE(c.b)).r = d.r)
     /\ (c.op = "pow" /\ x.out = "return" /\ c.mode = "D" /\ c.n > 0) =>
           LET q == Pow(a, c.n - 1, w) IN ~q.ovf /\ MulW(q.v, a, w).v = FromBE(x.items[1].b)   \* a^e = a^(e-1) * a
     /\ (c.op = "log2" /\ x.out = "return" /\ c.mode = "D") =>
